@@ -3,8 +3,8 @@
 result in seeded/<id>/meta.json (caught_by / missed_by)."""
 import glob, json, os, subprocess, sys
 ROOT = os.path.dirname(os.path.dirname(os.path.abspath(__file__)))
-EXTRA = {"c01-frag-result-last-datagram": ["C07"], "c02-partial-reset-moved-to-close": ["C07"],
-         "c08-partial-reset-moved-to-close": ["C07"], "c05-udp-oserror-retry-unbounded": ["C04"],
+EXTRA = {"c01-frag-result-last-datagram": ["C07"], "c08-r3-fragment-glue-le": ["C07"],
+         "c05-udp-oserror-retry-unbounded": ["C04"],
          "c14-battery2-mapped-after-refusal": ["C15"], "c12-enuml-ffff-to-zero": ["C13"],
          "c09-tcp-duplicate-exception-frame": ["C04"], "c02-aa55-checksum-overflow": ["C04", "C01"],
          "c12-r3-battery2-mapped-after-refusal": ["C14", "C15"], "c17-r2-dt-class-level-settings-map": ["C20"],
